@@ -47,6 +47,7 @@ type ecase struct {
 	Log      []byte      `json:"log,omitempty"`    // event log to parse (nil: the repository's sample log)
 	NoLog    int         `json:"no_log,omitempty"` // 1: a nil event log, 2: an empty one
 	Loader   int         `json:"loader,omitempty"` // 0: GRUB, 1: extract.UnsupportedLoader
+	Table    []byte      `json:"table,omitempty"`  // CCEL ACPI table to pass (nil: the repository's sample table)
 	Twin     *world.Case `json:"-"`                // the unbroken case of the same world
 }
 
@@ -120,6 +121,10 @@ func ccelProblemWith(c *ecase, measured [4]bool, regs [4][]byte, shared *verify.
 			return "harness: own parser refuses the case's event log: " + err.Error(), false
 		}
 	}
+	table := ccelTable
+	if c.Table != nil {
+		table = c.Table
+	}
 	po := toOptions(&c.Policy)
 	m := mon.MessageFor("built", c.V.Quote)
 	var anyq any = m
@@ -129,7 +134,7 @@ func ccelProblemWith(c *ecase, measured [4]bool, regs [4][]byte, shared *verify.
 	var err error
 	var stNil bool
 	pv, st := mon.Guard(func() {
-		s, e := rtmr.ParseCcelWithTdQuote(log, ccelTable, anyq, &rtmr.ParseTdxCcelOpts{Validation: po, Verification: vo, ExtractOpt: extract.Opts{Loader: []extract.Bootloader{extract.GRUB, extract.UnsupportedLoader}[c.Loader]}})
+		s, e := rtmr.ParseCcelWithTdQuote(log, table, anyq, &rtmr.ParseTdxCcelOpts{Validation: po, Verification: vo, ExtractOpt: extract.Opts{Loader: []extract.Bootloader{extract.GRUB, extract.UnsupportedLoader}[c.Loader]}})
 		err, stNil = e, s == nil
 	})
 	if pv != "" {
@@ -359,6 +364,36 @@ func c18(x *mon.Ctx) {
 					add(w, world.LBase, fmt.Sprintf("rtmr%d-bitflip-unpinned-by-policy", i), fmt.Sprint("bit", b, "/empty-entry"), p, measured[i], false)
 					p2 := ref.Policy{Rtmrs: [][]byte{nil, nil, nil, nil}}
 					add(w, world.LBase, fmt.Sprintf("rtmr%d-bitflip-unpinned-by-policy", i), fmt.Sprint("bit", b, "/four-nil-entries"), p2, measured[i], false)
+				}
+			}
+		}
+		// the ACPI table that comes with the log is unsigned too: whatever its length / address fields say (every small value, the
+		// boundaries of the log's first records, the log's length and its neighbours, huge values), a register that does not match
+		// the log is not waved through
+		for i := 0; i < 4; i++ {
+			if !measured[i] || len(ccelTable) < 56 {
+				continue
+			}
+			w := base.Clone()
+			w.Q.Body[328+48*i] ^= 1
+			w.Requote()
+			var lens []uint64
+			for v := uint64(0); v <= 300; v++ {
+				lens = append(lens, v)
+			}
+			n := uint64(len(ccelData))
+			lens = append(lens, n-1, n, n+1, n/2, 1<<16, 1<<32, 1<<63, ^uint64(0))
+			for _, field := range []int{40, 48} { // log area minimum length, log area start address
+				for _, v := range lens {
+					if x.Quick() && v > 100 && v <= 300 && v%7 != 0 {
+						continue
+					}
+					for loader := 0; loader < 2; loader++ {
+						c := w.Case(world.LBase, fmt.Sprintf("rtmr%d-bitflip-and-an-edited-table", i), fmt.Sprintf("%stable[%d:%d]=%d/loader%d", wtag, field, field+8, v, loader))
+						tbl := append([]byte(nil), ccelTable...)
+						binary.LittleEndian.PutUint64(tbl[field:], v)
+						cases = append(cases, &ecase{V: c, Policy: ref.Policy{}, MustFail: true, Table: tbl, Loader: loader})
+					}
 				}
 			}
 		}
